@@ -423,9 +423,9 @@ func C18(c *fw.Ctx) {
 		}
 	}
 	// deep recursion: the transformations must not change what a deep recursion does (two shapes, depths
-	// 2^10, 2^12, 2^13, 2^14, 3*2^13: what the pinned tree still runs under every transformation within the
-	// host's stack limit -- at 2^15 the fully parenthesised text needs a Go stack beyond 512 MB, which the
-	// host refuses: a resource limit of the host and not a statement about meaning)
+	// 2^10, 2^12, 2^13, 2^14, 3*2^13: what runs under every transformation within the 192 MB the harness allows
+	// an in-process Go stack -- at 2^15 the fully parenthesised text needs more in-process, while the real
+	// executable still runs it: a limit of the harness, so deeper recursions are left out)
 	{
 		id, num := model.Id, model.Num
 		for _, d := range []int{1 << 10, 1 << 12, 1 << 13, 1 << 14, 3 << 13} {
